@@ -7,8 +7,12 @@ from __future__ import annotations
 import contextlib
 import hashlib
 import json
+import os
+import subprocess
+import sys
 import threading
 import time
+from pathlib import Path
 from fractions import Fraction
 
 import numpy as np
@@ -34,7 +38,16 @@ RULE = (
     "every configuration (baseline too) is also compared with the Lean models of Model/Cross.lean: ensemble and "
     "reset scores against the mean / calibration of whole-table predictions of the returned models, the training "
     "tables handed to the fold fits against rows[train_idx] per file, every result file (ids, order, q-values, "
-    "target/decoy split) against the chunked model and its chunk-free specification"
+    "target/decoy split) against the chunked model and its chunk-free specification. Second pass: text input also "
+    "as .tab / .csv, decoys=True/False, worker counts drawn per stage (read_pin / brew / assign_confidence); every "
+    "chunked pass of the real readers is recorded (chunk_size argument, first index label and size of every chunk) "
+    "and compared with the configured constant and the Lean stream profile (xspans / closed form); in a part of "
+    "the cases an additional confidence run on the same table with a numeric spectrum column spelled "
+    "non-uniformly in the text file (500 / 500.5; Parquet: a double column) and a roll-up level column whose ids "
+    "look numeric only in part (117 / 120_b) is compared with the chunk-free specification on canonical keys and "
+    "with the model of the per-chunk dtype inference and of _entity_key (xkeyfiles); once per run "
+    "a fresh interpreter checks that every MOKAPOT_* environment variable reaches the module constant the "
+    "harness varies"
 )
 THR = 0.25
 DELAYED = [
@@ -121,6 +134,90 @@ def jitter(seed, on):
             setattr(mo, name, old)
 
 
+@contextlib.contextmanager
+def record_streams(log, phase):
+    """records every chunked pass the real text / Parquet readers make: the `chunk_size` argument they were
+    really asked for and, per chunk delivered, the index label of its first row and its number of rows.
+    `phase` is a one-element list naming the pipeline stage that is running."""
+    td = P.mod("mokapot.tabular_data")
+    lock = threading.Lock()
+    saved = []
+
+    def wrap(cls):
+        old = cls.get_chunked_data_iterator
+
+        def gen(self, chunk_size, columns=None):
+            entry = dict(phase=phase[0], file=Path(self.file_name).name, chunk_size=int(chunk_size), spans=[],
+                         reader=cls.__name__)
+            with lock:
+                log.append(entry)
+            for ch in old(self, chunk_size=chunk_size, columns=columns):
+                entry["spans"].append((int(ch.index[0]) if len(ch) else -1, int(len(ch))))
+                yield ch
+            entry["done"] = True
+
+        saved.append((cls, old))
+        cls.get_chunked_data_iterator = gen
+
+    try:
+        for name in ("CSVFileReader", "ParquetFileReader"):
+            wrap(getattr(td, name))
+        yield
+    finally:
+        for cls, old in saved:
+            cls.get_chunked_data_iterator = old
+
+
+TEXT_FMTS = ("pin", "tab", "csv")
+
+
+def mixed_tables(case, dfs):
+    """the same tables with (a) fractional masses for about a third of the spectra (all PSMs of a spectrum alike) and
+    (b) a roll-up level column `PeptideGroup` whose ids are numeric-looking (`117`) for two thirds of the groups and
+    not (`120_b`) for the others: a text chunk holding only the former is parsed as integers, any other as strings"""
+    import random
+
+    r = random.Random(case["data_seed"] ^ 0x5EED)
+    out = []
+    for df in dfs:
+        x = df.copy()
+        frac = {s: (r.random() < 0.3) for s in sorted(set(x["ScanNr"].tolist()))}
+        x["ExpMass"] = x["ExpMass"].astype(float) + np.array([0.5 if frac[s] else 0.0 for s in x["ScanNr"]])
+        groups = []
+        for pep in x["Peptide"]:
+            decoy = pep.startswith("decoy_")
+            g = int(pep.replace("decoy_", "")[3:-1]) // 2
+            gid = (5000 if decoy else 100) + g
+            groups.append(f"{gid}_b" if g % 3 == 0 else str(gid))
+        if "PeptideGroup" in x.columns:
+            x["PeptideGroup"] = groups
+        else:
+            x.insert(list(x.columns).index("Proteins"), "PeptideGroup", groups)
+        out.append(x)
+    return out
+
+
+def numeric_looking(v):
+    """text made of digits, sign, decimal point and exponent only (re-statement of what `_entity_key` keys as a
+    number; `INF`, `NAN`, `1_7` are text).  The generator never writes texts that pandas itself reads as numbers or
+    as missing values when they are alone in a chunk (INF, NAN, NA, NULL, …)"""
+    import re
+
+    return re.fullmatch(r"[+-]?(\d+\.?\d*|\.\d+)([eE][+-]?\d+)?", str(v)) is not None
+
+
+def write_input(df, path, rg, mixed=False):
+    """mixed: the text file spells integral masses without a decimal point (500) and the others with one (500.5),
+    as `%g`-style writers do; the Parquet file of the same table holds a double column"""
+    path = Path(path)
+    if not mixed or path.suffix == ".parquet":
+        return mkdata.write_table(df, path, row_group_size=rg)
+    x = df.copy()
+    x["ExpMass"] = pd.Series([int(v) if float(v).is_integer() else float(v) for v in df["ExpMass"]], dtype=object)
+    x.to_csv(path, sep="\t", index=False)
+    return path
+
+
 MODES = ("perfold", "ensemble", "reset")
 
 
@@ -154,16 +251,37 @@ def gen_case(rng, idx=None):
         case["est"] = "flip"
         if case["cap"] == 0.4:      # a very small training subset can leave the pretrained model without any
             case["cap"] = 0.8       # accepted PSM (brew raises before the reset decision): keep the cases productive
+    # second pass: decoy files on / off (the tie projection reads both files), the additional run on a table
+    # whose numeric spectrum column is spelled non-uniformly in the text file
+    case["decoys"] = True if case["ties"] else rng.random() < 0.75
+    # scores straddling zero, one of them exactly 0.0 (every second case, drawn last so that the other dimensions
+    # keep their values for a given seed)
+    case["center"] = None
+    case["mixed"] = rng.random() < 0.2
+    if idx is not None and idx % 5 == 0:
+        case["mixed"] = True
+    if case["mixed"]:
+        case["max_per"] = max(2, case["max_per"])       # spectra with several PSMs: something to compete
     pick = lambda: rng.choice([1, 2, 3, 7, "n-1", "n", "n+1", 10 ** 7])  # noqa: E731
     case["variants"] = []
     for _ in range(rng.choice([2, 3])):
+        w = rng.choice([1, 2, 4, 8, 16])
         case["variants"].append(dict(
             confidence=pick(), merge=pick(), predict=pick(), read_all=pick(),
             drop_rows=rng.choice([5, 7, "n-1", "n", "n+1", 10 ** 7, 1]),
-            drop_cols=rng.choice([1, 2, 3, 5, 19, 40]), workers=rng.choice([1, 2, 4, 8, 16]),
-            fmt=rng.choice(["pin", "parquet"]), rg=rng.choice([1, 3, 50, None]), jitter=rng.random() < 0.7,
-            jseed=rng.randrange(1 << 20),
+            drop_cols=rng.choice([1, 2, 3, 5, 19, 40]), workers=w,
+            # worker counts of read_pin and assign_confidence drawn on their own in half of the variants
+            workers_read=rng.choice([w, w, 1, 3, 16]), workers_conf=rng.choice([w, w, 1, 2, 16]),
+            fmt=rng.choice(["pin", "tab", "csv", "parquet", "parquet", "parquet"]), rg=rng.choice([1, 3, 50, None]),
+            jitter=rng.random() < 0.7, jseed=rng.randrange(1 << 20),
         ))
+    if case["mixed"]:
+        # a chunk size that mixes chunks with and without a fractional mass
+        case["variants"][0]["confidence"] = rng.choice([2, 3, 5, 7])
+    case["center"] = (idx % 2 == 0) if idx is not None else rng.random() < 0.5
+    if case["center"]:
+        # at least one variant whose confidence chunks are merged (several chunk files, the zero in one of them)
+        case["variants"][-1]["confidence"] = rng.choice([2, 3, 7])
     return case
 
 
@@ -202,8 +320,13 @@ def csize(v, n):
 
 
 def conf_scores(case, df):
-    """the (integer-valued, pairwise distinct) score vector handed to assign_confidence"""
-    return df["feat0"].values.astype(float)
+    """the (integer-valued, pairwise distinct) score vector handed to assign_confidence; with `center` the vector is
+    shifted by its median element, so that one PSM scores exactly 0.0 and about half of them score below zero (what
+    calibrated scores look like: the threshold PSM of a fold is mapped onto exactly 0.0)"""
+    v = df["feat0"].values.astype(float)
+    if case.get("center") and len(v):
+        v = v - np.sort(v)[len(v) // 2]
+    return v
 
 
 def tied_scores(df):
@@ -237,11 +360,25 @@ def run_config(case, dfs, d, cfg, tag):
     out = {}
     mode = case.get("mode", "perfold")
     rec = []
+    w_read, w_conf = cfg.get("workers_read", cfg["workers"]), cfg.get("workers_conf", cfg["workers"])
+    decoys = case.get("decoys", True)
+    slog, phase = [], ["read"]
+    out["streams"] = slog
+    out["input_rows"] = {Path(p_).name: len(x) for p_, x in zip(paths, dfs)}
+    with record_streams(slog, phase):
+        _run_config_body(case, dfs, d, cfg, tag, out, sizes, paths, mode, rec, w_read, w_conf, decoys, phase)
+    return out
+
+
+def _run_config_body(case, dfs, d, cfg, tag, out, sizes, paths, mode, rec, w_read, w_conf, decoys, phase):
+    import mokapot
+
     with P.chunk_sizes(**sizes), jitter(cfg["jseed"], cfg["jitter"]), record_parse(rec):
         if len(paths) == 1:
-            dss = [mkdata.read_dataset(paths[0], max_workers=cfg["workers"])]
+            dss = [mkdata.read_dataset(paths[0], max_workers=w_read)]
         else:
-            dss = list(mokapot.read_pin(list(paths), max_workers=cfg["workers"]))
+            dss = list(mokapot.read_pin(list(paths), max_workers=w_read))
+        phase[0] = "brew"
         out["dataset"] = []
         for ds in dss:
             sd = ds.spectra_dataframe
@@ -279,25 +416,49 @@ def run_config(case, dfs, d, cfg, tag):
     with P.chunk_sizes(**sizes), jitter(cfg["jseed"], cfg["jitter"]):
         # confidence on exact (integer-valued) scores, so that every comparison below is exact
         if len(paths) == 1:
-            ds2 = [mkdata.read_dataset(paths[0], max_workers=cfg["workers"])]
+            phase[0] = "read2"
+            ds2 = [mkdata.read_dataset(paths[0], max_workers=w_read)]
         else:
             ds2 = dss       # several collections: the datasets brew has used are handed on (as the CLI does)
+        phase[0] = "conf"
         cdir = d / f"conf-{tag}"
         cdir.mkdir()
         with P.pep_kernel(stub=True):
             P.run_assign_confidence(ds2, [conf_scores(case, x) for x in dfs], cdir, prefixes=coll_prefixes(case),
-                                    decoys=True, deduplication=case["dedup"], max_workers=cfg["workers"])
+                                    decoys=decoys, deduplication=case["dedup"], max_workers=w_conf)
         out["files"] = {f.name: P.read_result(f) for f in sorted(cdir.iterdir())}
         if case.get("ties"):
             # a second confidence run of the same configuration on tied scores (theorem
             # C05_psm_scores_chunk_invariant_ties); the tie-free run above keeps every exact comparison
+            phase[0] = "conf-tied"
             cdir2 = d / f"conf-tied-{tag}"
             cdir2.mkdir()
             with P.pep_kernel(stub=True):
                 P.run_assign_confidence(ds2, [tied_scores(x) for x in dfs], cdir2, prefixes=coll_prefixes(case),
-                                        decoys=True, deduplication=case["dedup"], max_workers=cfg["workers"])
+                                        decoys=decoys, deduplication=case["dedup"], max_workers=w_conf)
             out["files_tied"] = {f.name: P.read_result(f) for f in sorted(cdir2.iterdir())}
-    return out
+    if case.get("mixed"):
+        # the same table with key columns spelled non-uniformly in the text file (theorems
+        # C05_number_spelling_chunk_invariant / C05_keyed_files_…; GAPS-C05.md second pass).  Only the two constants
+        # of assign_confidence are varied here (no injected delays, read_pin with its defaults): the subject is the
+        # key of the streaming scan
+        mdfs = mixed_tables(case, dfs)
+        mpaths = [write_input(x, d / f"{tag}_mx{k}.{cfg['fmt']}", cfg["rg"], mixed=True) for k, x in enumerate(mdfs)]
+        out["input_rows"].update({Path(p_).name: len(x) for p_, x in zip(mpaths, mdfs)})
+        phase[0] = "mixed-read"
+        if len(mpaths) == 1:
+            mds = [mkdata.read_dataset(mpaths[0], max_workers=1)]
+        else:
+            mds = list(mokapot.read_pin(list(mpaths), max_workers=1))
+        out["dataset_mixed"] = [dict(spectrum=list(ds.spectrum_columns), levels=list(ds.level_columns)) for ds in mds]
+        with P.chunk_sizes(confidence=sizes["confidence"], merge=sizes["merge"]):
+            phase[0] = "conf-mixed"
+            cdir3 = d / f"conf-mixed-{tag}"
+            cdir3.mkdir()
+            with P.pep_kernel(stub=True):
+                P.run_assign_confidence(mds, [conf_scores(case, x) for x in mdfs], cdir3, prefixes=coll_prefixes(case),
+                                        decoys=decoys, deduplication=case["dedup"], max_workers=w_conf)
+            out["files_mixed"] = {f.name: P.read_result(f) for f in sorted(cdir3.iterdir())}
 
 
 BASE = dict(confidence=10 ** 7, merge=10 ** 7, predict=10 ** 7, read_all=10 ** 7, drop_rows=10 ** 7, drop_cols=10 ** 3,
@@ -328,6 +489,24 @@ def tie_projection(case, dfs, run):
     return out
 
 
+def diff_files(bfiles, vfiles):
+    """first difference between the result files of two runs, or None"""
+    if sorted(bfiles) != sorted(vfiles):
+        return f"assign_confidence: set of files differs {sorted(bfiles)} vs {sorted(vfiles)}"
+    for name, fb in bfiles.items():
+        fv = vfiles[name]
+        if fb is None or fv is None:
+            continue
+        if list(fb.columns) != list(fv.columns) or len(fb) != len(fv):
+            return f"assign_confidence: {name} shape/columns differ"
+        for c in fb.columns:
+            a, b = fb[c].values, fv[c].values
+            same = np.array_equal(a, b) if a.dtype.kind not in "fc" else np.allclose(a, b, rtol=1e-12, atol=0, equal_nan=True)
+            if not same:
+                return f"assign_confidence: {name} column {c} differs"
+    return None
+
+
 def compare(base, var, case=None, dfs=None):
     """first difference between two runs, or None"""
     if len(base["dataset"]) != len(var["dataset"]):
@@ -348,19 +527,9 @@ def compare(base, var, case=None, dfs=None):
         return "brew: model coefficients differ"
     if [(r["train_idx"], r["tables"]) for r in base["train"]] != [(r["train_idx"], r["tables"]) for r in var["train"]]:
         return "brew: training tables handed to the fold fits differ"
-    if sorted(base["files"]) != sorted(var["files"]):
-        return f"assign_confidence: set of files differs {sorted(base['files'])} vs {sorted(var['files'])}"
-    for name, fb in base["files"].items():
-        fv = var["files"][name]
-        if fb is None or fv is None:
-            continue
-        if list(fb.columns) != list(fv.columns) or len(fb) != len(fv):
-            return f"assign_confidence: {name} shape/columns differ"
-        for c in fb.columns:
-            a, b = fb[c].values, fv[c].values
-            same = np.array_equal(a, b) if a.dtype.kind not in "fc" else np.allclose(a, b, rtol=1e-12, atol=0, equal_nan=True)
-            if not same:
-                return f"assign_confidence: {name} column {c} differs"
+    fd = diff_files(base["files"], var["files"])
+    if fd:
+        return fd
     if case is not None and case.get("ties"):
         # tied scores: which of several equally scored PSMs survives is C03's tie rule; compare what the
         # chunk size may not influence
@@ -460,6 +629,33 @@ def check_train_tables(case, cfg, out, dfs, n0):
     return None
 
 
+def impl_levels(case, files, df, pref, info):
+    """per level [[(row id, q) … targets], [… decoys]] as the implementation wrote them; str = what is wrong"""
+    pre = f"{pref}." if pref else ""
+    byid = {sid: i for i, sid in enumerate(df["SpecId"])}
+    names = ["psms"] + [c_.lower() + "s" for c_ in info["levels"]]
+    impl = []
+    for ln in names:
+        per = []
+        for which in ("targets", "decoys"):
+            f = files.get(f"{pre}{which}.{ln}")
+            if which == "decoys" and not case.get("decoys", True):
+                if f is not None:
+                    return f"file {pre}{which}.{ln} written although decoys=False", names
+                continue
+            if f is None:
+                return f"file {pre}{which}.{ln} is missing", names
+            per.append([(byid.get(i, -1), float(q)) for i, q in zip(f["PSMId"], f["q-value"])])
+        impl.append(per)
+    return impl, names
+
+
+def parse_levels(case, r):
+    lv = dec(r)
+    keep = 2 if case.get("decoys", True) else 1
+    return [[[(int(x[0]), rounded(a_rat(x[1]))) for x in part] for part in level[:keep]] for level in lv]
+
+
 def check_files(case, cfg, out, dfs, n0):
     """every result file against the chunked model (xfiles) and its chunk-free specification (xfilesspec)"""
     prefs = coll_prefixes(case)
@@ -478,24 +674,10 @@ def check_files(case, cfg, out, dfs, n0):
         metas.append((k, df, pref, info))
     resp = common.driver_batch(reqs)
     for (k, df, pref, info), rm, rs in zip(metas, resp[0::2], resp[1::2]):
-        pre = f"{pref}." if pref else ""
-        byid = {sid: i for i, sid in enumerate(df["SpecId"])}
-        names = ["psms"] + [c_.lower() + "s" for c_ in info["levels"]]
-        impl = []
-        for ln in names:
-            per = []
-            for which in ("targets", "decoys"):
-                f = out["files"].get(f"{pre}{which}.{ln}")
-                if f is None:
-                    return ("spec", "result-files", f"collection {k}: file {pre}{which}.{ln} is missing")
-                per.append([(byid.get(i, -1), float(q)) for i, q in zip(f["PSMId"], f["q-value"])])
-            impl.append(per)
-
-        def parse(r):
-            lv = dec(r)
-            return [[[(int(x[0]), rounded(a_rat(x[1]))) for x in part] for part in level] for level in lv]
-
-        spec, model = parse(rs), parse(rm)
+        impl, names = impl_levels(case, out["files"], df, pref, info)
+        if isinstance(impl, str):
+            return ("spec", "result-files", f"collection {k}: {impl}")
+        spec, model = parse_levels(case, rs), parse_levels(case, rm)
         if impl != spec:
             lvl = next((names[i] for i in range(len(names)) if i >= len(spec) or impl[i] != spec[i]), "?")
             return ("spec", "result-files", f"collection {k}: level {lvl}: rows / order / q-values / target-decoy split "
@@ -505,12 +687,130 @@ def check_files(case, cfg, out, dfs, n0):
     return None
 
 
+KEY_VARIANTS = {0: "_entity_key", 1: "numbers as floats only (before 0d68f96)", 2: "str() of the typed values (before 5233470)"}
+
+
+def check_mixed(case, cfg, out, dfs, n0):
+    """the run on the table with mixed spellings: result files against the chunk-free specification on CANONICAL
+    keys (500 and 500.0 are one mass, a group id is its text) and against the model of the code as it is
+    (per-chunk dtype inference + `_entity_key`); the two refuted earlier keys only name what a disagreement is"""
+    if not case.get("mixed") or "files_mixed" not in out:
+        return None
+    prefs = coll_prefixes(case)
+    if len(dfs) > 1 and prefs[0] is None:
+        return ("skip", "xkeyfiles-skipped-aggregated", None)
+    mdfs = mixed_tables(case, dfs)
+    c = csize(cfg["confidence"], n0)
+    text_input = cfg["fmt"] != "parquet"
+    reqs, metas = [], []
+    for k, (df, pref) in enumerate(zip(mdfs, prefs)):
+        info = out["dataset_mixed"][k]
+        if not info["levels"] or info["levels"][-1] != "PeptideGroup":
+            return ("spec", "read_pin", f"collection {k}: PeptideGroup is not the last roll-up level: {info['levels']}")
+        score = conf_scores(case, df)
+        rows = P.table_rows(df, info["spectrum"], info["levels"], score)
+        sc = [int(x) for x in score]
+        nl = len(info["levels"])
+        # Parquet: the columns are typed by the schema (double / string) in every chunk; text: a cell with a fraction
+        # makes its chunk float64, a group id that is not a number makes its chunk a chunk of strings
+        frac = [not float(v).is_integer() for v in df["ExpMass"]] if text_input else [True] * len(df)
+        txt = [not numeric_looking(v) for v in df["PeptideGroup"]]
+        reqs += [req("xkeyfiles", 0, c, case["dedup"], nl, rows, sc, frac, txt),
+                 req("xfilesspec", 10 ** 7, case["dedup"], nl, rows, sc),
+                 req("xkeyfiles", 1, c, case["dedup"], nl, rows, sc, frac, txt),
+                 req("xkeyfiles", 2, c, case["dedup"], nl, rows, sc, frac, txt),
+                 req("xdtypes", c, [1 if f else 0 for f in frac]), req("xdtypes", c, [2 if t else 0 for t in txt])]
+        metas.append((k, df, pref, info))
+    resp = common.driver_batch(reqs)
+    for (k, df, pref, info), rm, rs, r1, r2, rd1, rd2 in zip(metas, *(resp[i::6] for i in range(6))):
+        impl, names = impl_levels(case, out["files_mixed"], df, pref, info)
+        if isinstance(impl, str):
+            return ("spec", "number-spelling", f"collection {k}: {impl} (mixed spellings)")
+        spec, model = parse_levels(case, rs), parse_levels(case, rm)
+        old = {1: parse_levels(case, r1), 2: parse_levels(case, r2)}
+        if text_input:
+            out.setdefault("mixed_dtypes_vary", []).append(
+                (len(set(str(t) for t in dec(rd1))) > 1, len(set(str(t) for t in dec(rd2))) > 1))
+            out.setdefault("mixed_old_keys_would_differ", []).append((old[1] != spec, old[2] != spec))
+        if impl != spec:
+            lvl = next((names[i] for i in range(len(names)) if i >= len(spec) or impl[i] != spec[i]), "?")
+            like = [KEY_VARIANTS[v] for v in (1, 2) if text_input and impl == old[v]]
+            return ("spec", "number-spelling",
+                    f"collection {k}: level {lvl}: with the spectrum column spelled 500 / 500.5 and the level column "
+                    f"PeptideGroup holding ids like 117 / 120_b in the {'text' if text_input else 'Parquet'} file, the "
+                    f"result files for CONFIDENCE_CHUNK_SIZE={c} differ from the chunk-free specification (entities keyed "
+                    f"by their canonical value)" + (f"; they are the files of the refuted key variant(s): {like}" if like else ""))
+        if impl != model:
+            return ("corr", "xkeyfiles", f"collection {k}: model of the keys of the streaming scan differs from the "
+                                         "implementation (which satisfies the canonical-key specification)")
+    return None
+
+
+def closed_spans(c, n):
+    """direct re-statement of the stream profile: chunk k starts at row k*c and holds min(c, n - k*c) rows"""
+    return [(k * c, min(c, n - k * c)) for k in range(-(-n // c))]
+
+
+def check_streams(case, cfg, out, dfs, n0):
+    """every chunked pass of the real readers: was it asked for the configured constant, and does it deliver the
+    chunks of the Lean stream model (first index label and size of every chunk)?"""
+    sizes = {k: csize(cfg[k], n0) for k in ("confidence", "merge", "predict", "read_all", "drop_rows")}
+    inputs = out.get("input_rows", {})
+    todo = []
+    for e in out.get("streams", []):
+        ph, name = e["phase"], e["file"]
+        if ph == "mixed-read":
+            continue        # read_pin of the mixed-spelling table runs with the default constants
+        if name in inputs:
+            if ph.startswith("read"):
+                exp, what = {sizes["drop_rows"]}, "CHUNK_SIZE_ROWS_FOR_DROP_COLUMNS"
+            elif ph == "brew":
+                exp, what = {sizes["read_all"], sizes["predict"]}, "CHUNK_SIZE_READ_ALL_DATA / CHUNK_SIZE_ROWS_PREDICTION"
+            else:
+                exp, what = {sizes["confidence"]}, "CONFIDENCE_CHUNK_SIZE"
+            total = inputs[name]
+            kind = "input file"
+        elif "scores_metadata" in name:
+            exp, what, total, kind = {sizes["merge"]}, "MERGE_SORT_CHUNK_SIZE", None, "sorted chunk file"
+        else:
+            exp, what, total, kind = {sizes["confidence"]}, "CONFIDENCE_CHUNK_SIZE", None, "level file"
+        if e["chunk_size"] not in exp:
+            return ("corr", "xspans", f"{ph}: the reader of the {kind} was asked for chunks of {e['chunk_size']} rows, "
+                                      f"the configured {what} is {sorted(exp)}")
+        if not e.get("done"):
+            continue        # a pass that was not read to its end says nothing about the last chunk
+        spans = [s_ for s_ in e["spans"] if s_[1] > 0] if sum(l_ for _, l_ in e["spans"]) == 0 else list(e["spans"])
+        got = sum(l_ for _, l_ in spans)
+        if total is not None and got != total:
+            return ("corr", "xspans", f"{ph}: the chunks of the {kind} hold {got} of its {total} rows")
+        todo.append((e["chunk_size"], got, spans, ph, kind))
+    nb = [e["chunk_size"] for e in out.get("streams", []) if e["phase"] == "brew"]
+    r_, p_, nf = sizes["read_all"], sizes["predict"], len(dfs)
+    ok = (len(nb) in (nf, 2 * nf)) if r_ == p_ else (nb.count(r_) == nf and nb.count(p_) in (0, nf))
+    if not ok:
+        return ("corr", "xspans", f"brew: chunked passes over the input with chunk sizes {nb}; expected one training "
+                                  f"read per file with {r_} and at most one prediction pass per file with {p_}")
+    pairs = sorted({(c, n) for c, n, _, _, _ in todo})
+    resp = common.driver_batch([req("xspans", c, n) for c, n in pairs] + [req("xspansspec", c, n) for c, n in pairs])
+    model = {pr: [tuple(int(v) for v in x) for x in dec(r)] for pr, r in zip(pairs, resp[:len(pairs)])}
+    spec = {pr: [tuple(int(v) for v in x) for x in dec(r)] for pr, r in zip(pairs, resp[len(pairs):])}
+    for c, n, spans, ph, kind in todo:
+        if spec[(c, n)] != closed_spans(c, n):
+            return ("corr", "xspansspec", f"Lean closed form differs from its re-statement for c={c}, n={n}")
+        if [tuple(x) for x in spans] != model[(c, n)] or model[(c, n)] != spec[(c, n)]:
+            return ("corr", "xspans", f"{ph}: the chunks of the {kind} (first label, rows) {spans[:4]}… differ from the "
+                                      f"stream model for c={c}, n={n}: {model[(c, n)][:4]}…")
+    out["streams_checked"] = [(ph, len(spans)) for _, _, spans, ph, _ in todo]
+    return None
+
+
 def model_checks(chk, case, cfg, out, dfs):
     """runs all comparisons with the Lean models on one configuration; returns True when a violation or a
     broken correspondence was recorded"""
     n0 = len(dfs[0])
     for fn in (lambda: check_ensemble(case, cfg, out, n0), lambda: check_reset(case, cfg, out, n0),
-               lambda: check_train_tables(case, cfg, out, dfs, n0), lambda: check_files(case, cfg, out, dfs, n0)):
+               lambda: check_train_tables(case, cfg, out, dfs, n0), lambda: check_files(case, cfg, out, dfs, n0),
+               lambda: check_streams(case, cfg, out, dfs, n0), lambda: check_mixed(case, cfg, out, dfs, n0)):
         res = fn()
         if res is None:
             continue
@@ -524,6 +824,14 @@ def model_checks(chk, case, cfg, out, dfs):
         else:
             chk.corr_break(name, dict(case=info["case"], variant=cfg, impl=detail, model=name))
         return True
+    for ph, nch in out.get("streams_checked", []):
+        chk.count("stream-pass", ph.split("-")[0])
+        chk.count("stream-chunks", "1" if nch == 1 else ("2-9" if nch < 10 else "10+"))
+    for a, b in out.get("mixed_dtypes_vary", []):
+        chk.count("mixed-chunk-dtypes-vary", f"mass:{a}/group:{b}")
+    for a, b in out.get("mixed_old_keys_would_differ", []):
+        # how often the dimension can tell the refuted keys from the repaired one
+        chk.count("mixed-refuted-key-would-differ", f"numbers-only:{a}/str:{b}")
     return False
 
 
@@ -559,6 +867,8 @@ def run_case(chk, case):
             return
         chk.count("mode", case.get("mode", "perfold")); chk.count("collections", len(dfs))
         chk.count("ties", bool(case.get("ties")))
+        chk.count("scores-straddle-zero", bool(case.get("center")))
+        chk.count("case-decoys", bool(case.get("decoys", True))); chk.count("case-mixed-spelling", bool(case.get("mixed")))
         if len(dfs) > 1:
             chk.count("prefixes", bool(case.get("prefixes")))
         if case.get("mode") == "reset":
@@ -568,7 +878,7 @@ def run_case(chk, case):
         if model_checks(chk, case, BASE, base, dfs):
             return
         for vi, cfg in enumerate(case["variants"]):
-            nontriv = cfg["workers"] > 1 or cfg["fmt"] == "parquet" or any(
+            nontriv = cfg["workers"] > 1 or cfg["fmt"] != "pin" or any(
                 isinstance(cfg[k], str) or cfg[k] < ntot for k in ("confidence", "merge", "predict", "read_all", "drop_rows"))
             key = (case["data_seed"], case["est"], case.get("mode"), len(dfs), json.dumps(cfg, sort_keys=True)) if nontriv else None
             var = None
@@ -587,6 +897,19 @@ def run_case(chk, case):
             chk.count("jitter", cfg["jitter"])
             chk.count("mode-x-predict", f"{case.get('mode', 'perfold')}/{cfg['predict']}")
             chk.count("collections-x-read_all", f"{len(dfs)}/{cfg['read_all']}")
+            chk.count("decoys", bool(case.get("decoys", True))); chk.count("mixed-spelling", bool(case.get("mixed")))
+            chk.count("workers-per-stage", "same" if cfg.get("workers_read", cfg["workers"]) == cfg["workers"]
+                      == cfg.get("workers_conf", cfg["workers"]) else "differ")
+            if case.get("mixed"):
+                chk.count("mixed-x-confidence", f"{cfg['fmt'] if cfg['fmt'] == 'parquet' else 'text'}/{cfg['confidence']}")
+            if not diff and var is not None and case.get("mixed") and "files_mixed" in base and "files_mixed" in var:
+                md = diff_files(base["files_mixed"], var["files_mixed"])
+                if md:
+                    chk.spec_violation("config-dependence:number-spelling", dict(
+                        case={k: v for k, v in case.items() if k != "variants"}, variant=cfg,
+                        clause="spectrum column spelled 500 / 500.5, level column PeptideGroup 117 / 120_b: " + md + " between the baseline "
+                               "(one chunk) and this configuration"))
+                    return
             if diff:
                 sig = "config-dependence:" + diff.split(":")[0]
                 chk.spec_violation(sig, dict(case={k: v for k, v in case.items() if k != "variants"}, variant=cfg,
@@ -594,6 +917,50 @@ def run_case(chk, case):
                 return
             if model_checks(chk, case, cfg, var, dfs):
                 return
+
+
+def env_channel_start(chk):
+    """the command line tool configures the streaming constants through MOKAPOT_* environment variables read at
+    import (constants.py); the harness varies the module attributes.  A fresh interpreter shows that the two are
+    the same channel: every variable of the generated inventory (theorem C05_constants_inventory) set to a random
+    value must be the value of the module attribute the harness patches."""
+    attrs = [(m, a) for v in P.CHUNK_ATTRS.values() for m, a in v]
+    vals = {a: chk.rng.randrange(2, 10 ** 6) for _, a in attrs}
+    env = dict(os.environ)
+    env.update({"MOKAPOT_" + a: str(v) for a, v in vals.items()})
+    code = ("import importlib, json\n"
+            f"attrs = {attrs!r}\n"
+            "print('ENVCONST ' + json.dumps({a: getattr(importlib.import_module(m), a) for m, a in attrs}))\n")
+    try:
+        proc = subprocess.Popen([sys.executable, "-W", "ignore", "-c", code], env=env, stdout=subprocess.PIPE,
+                                stderr=subprocess.PIPE, text=True)
+    except Exception as e:      # no second interpreter available: tallied, not a verdict
+        chk.reject("env-channel-not-run:" + type(e).__name__)
+        return None
+    return proc, vals
+
+
+def env_channel_finish(chk, job):
+    if job is None:
+        return
+    proc, vals = job
+    try:
+        so, se = proc.communicate(timeout=300)
+    except Exception as e:
+        proc.kill()
+        chk.reject("env-channel-not-run:" + type(e).__name__)
+        return
+    line = next((l_ for l_ in so.splitlines() if l_.startswith("ENVCONST ")), None)
+    if line is None:
+        chk.corr_break("envconst", dict(case=dict(env=vals), impl="a fresh interpreter with the MOKAPOT_* variables set "
+                                        "failed to import mokapot: " + se[-300:], model="constants inventory"))
+        return
+    got = json.loads(line[len("ENVCONST "):])
+    bad = {a: (vals[a], got.get(a)) for a in vals if got.get(a) != vals[a]}
+    chk.count("env-channel", "ok" if not bad else "differs")
+    if bad:
+        chk.corr_break("envconst", dict(case=dict(env=vals), impl=f"module constants do not take the values of their "
+                                        f"MOKAPOT_* variables (set, found): {bad}", model="constants inventory"))
 
 
 def search(chk):
@@ -608,11 +975,13 @@ def main(chk, args):
     if not build.driver_ok:
         chk.finish(build, RULE)
     n = chk.scale(5 if chk.tier == "quick" else 60)
+    env_job = env_channel_start(chk)        # a fresh interpreter, running beside the cases
     for i in range(n):
         run_case(chk, gen_case(chk.rng, i))
+    env_channel_finish(chk, env_job)
     lc = None
-    if chk.tier == "thorough":      # both property modules (Props/C05.lean and the extension Props/C05Cross.lean)
-        lcs = [common.leanchecker("C05"), common.leanchecker("C05Cross")]
+    if chk.tier == "thorough":      # the property modules (Props/C05.lean and the extensions C05Cross, C05Stream)
+        lcs = [common.leanchecker("C05"), common.leanchecker("C05Cross"), common.leanchecker("C05Stream")]
         lc = (all(x[0] for x in lcs), "".join(x[1] for x in lcs)[-2000:])
     chk.assumptions += [
         "PARTIAL: the theorems carry the chunk/worker/format-independence logic of the models of C02, C03, C13, C14 "
@@ -626,6 +995,12 @@ def main(chk, args):
         "the training tables are observed by wrapping mokapot.brew.parse_in_chunks (arguments and return value)",
         "reset path: the expected scores are mokapot.dataset.calibrate_scores (C11's subject) applied to whole-table "
         "predictions of the original model; the Lean side uses the calibrate model of C11",
+        "the chunk streams are observed by wrapping CSVFileReader / ParquetFileReader.get_chunked_data_iterator "
+        "(argument and chunks); the Parquet merge iterator (pq.ParquetFile.iter_batches in utils.py) is not observed",
+        "per-chunk dtype inference of pandas.read_csv is modelled as: a chunk is typed by its widest cell (integer "
+        "spelling < fraction spelling < text that is not a number); generated for one numeric spectrum column and one "
+        "roll-up level column; empty cells, several spellings of one number inside a text chunk ('017' / '17'), "
+        "and text spectrum columns are named in GAPS-C05.md and not generated",
     ]
     chk.extra["differential_runs"] = chk.evaluations
     chk.finish(build, RULE, search=search, lc=lc,
